@@ -21,6 +21,7 @@
 #include "ringbuffer_int.h"
 #include <qb/qbdefs.h>
 #include "atomic_int.h"
+#include "verif_hooks.h"
 
 #define QB_RB_FILE_HEADER_VERSION 1
 
@@ -347,7 +348,9 @@ qb_rb_space_free(struct qb_ringbuffer_s * rb)
 			rb->notifier.space_used_fn(rb->notifier.instance);
 	}
 	write_size = rb->shared_hdr->write_pt;
+	QB_VERIF_POINT(QB_VP_RB_SF_RD, rb);
 	read_size = rb->shared_hdr->read_pt;
+	QB_VERIF_POINT(QB_VP_RB_SF_CMP, rb);
 
 	if (write_size > read_size) {
 		space_free =
@@ -432,11 +435,14 @@ qb_rb_chunk_alloc(struct qb_ringbuffer_s * rb, size_t len)
 		}
 	}
 
+	QB_VERIF_POINT(QB_VP_RB_AL_WP, rb);
 	write_pt = rb->shared_hdr->write_pt;
 	/*
 	 * insert the chunk header
 	 */
+	QB_VERIF_POINT(QB_VP_RB_AL_SZ, rb);
 	rb->shared_data[write_pt] = 0;
+	QB_VERIF_POINT(QB_VP_RB_AL_MG, rb);
 	QB_RB_CHUNK_MAGIC_SET(rb, write_pt, QB_RB_CHUNK_MAGIC_ALLOC);
 
 	/*
@@ -480,7 +486,9 @@ qb_rb_chunk_commit(struct qb_ringbuffer_s * rb, size_t len)
 	/*
 	 * commit the magic & chunk_size
 	 */
+	QB_VERIF_POINT(QB_VP_RB_CM_WP, rb);
 	old_write_pt = rb->shared_hdr->write_pt;
+	QB_VERIF_POINT(QB_VP_RB_CM_SZ, rb);
 	rb->shared_data[old_write_pt] = len;
 
 	/*
@@ -492,7 +500,9 @@ qb_rb_chunk_commit(struct qb_ringbuffer_s * rb, size_t len)
 	 * word is unused, except when this chunk fills the whole buffer: then
 	 * it is this chunk's own size word, which is never the magic.
 	 */
+	QB_VERIF_POINT(QB_VP_RB_CM_STEP, rb);
 	new_write_pt = qb_rb_chunk_step(rb, old_write_pt);
+	QB_VERIF_POINT(QB_VP_RB_CM_NEXT, rb);
 	if (((new_write_pt + 1) % rb->shared_hdr->word_size) != old_write_pt) {
 		QB_RB_CHUNK_MAGIC_SET(rb, new_write_pt, QB_RB_CHUNK_MAGIC_DEAD);
 	}
@@ -500,8 +510,11 @@ qb_rb_chunk_commit(struct qb_ringbuffer_s * rb, size_t len)
 	/*
 	 * commit the new write pointer
 	 */
+	QB_VERIF_POINT(QB_VP_RB_CM_SETWP, rb);
 	rb->shared_hdr->write_pt = new_write_pt;
+	QB_VERIF_POINT(QB_VP_RB_CM_MG, rb);
 	QB_RB_CHUNK_MAGIC_SET(rb, old_write_pt, QB_RB_CHUNK_MAGIC);
+	QB_VERIF_POINT(QB_VP_RB_CM_POST, rb);
 
 	DEBUG_PRINTF("commit [%zd] read: %u, write: %u -> %u (%u)\n",
 		     (rb->notifier.q_len_fn ?
@@ -534,6 +547,7 @@ qb_rb_chunk_write(struct qb_ringbuffer_s * rb, const void *data, size_t len)
 		return -errno;
 	}
 
+	QB_VERIF_POINT(QB_VP_RB_WR_CPY, rb);
 	memcpy(dest, data, len);
 
 	res = qb_rb_chunk_commit(rb, len);
@@ -553,20 +567,26 @@ _rb_chunk_reclaim(struct qb_ringbuffer_s * rb)
 	uint32_t chunk_magic;
 	int rc = 0;
 
+	QB_VERIF_POINT(QB_VP_RB_RC_RP, rb);
 	old_read_pt = rb->shared_hdr->read_pt;
+	QB_VERIF_POINT(QB_VP_RB_RC_MG, rb);
 	chunk_magic = QB_RB_CHUNK_MAGIC_GET(rb, old_read_pt);
 	if (chunk_magic != QB_RB_CHUNK_MAGIC) {
 		errno = EINVAL;
 		return -errno;
 	}
 
+	QB_VERIF_POINT(QB_VP_RB_RC_SZ, rb);
 	old_chunk_size = QB_RB_CHUNK_SIZE_GET(rb, old_read_pt);
+	QB_VERIF_POINT(QB_VP_RB_RC_STEP, rb);
 	new_read_pt = qb_rb_chunk_step(rb, old_read_pt);
 
 	/*
 	 * clear the header
 	 */
+	QB_VERIF_POINT(QB_VP_RB_RC_CLR, rb);
 	rb->shared_data[old_read_pt] = 0;
+	QB_VERIF_POINT(QB_VP_RB_RC_DEAD, rb);
 	QB_RB_CHUNK_MAGIC_SET(rb, old_read_pt, QB_RB_CHUNK_MAGIC_DEAD);
 
 	/*
@@ -575,6 +595,7 @@ _rb_chunk_reclaim(struct qb_ringbuffer_s * rb)
 	 * new chunk between setting the new read pointer and clearing the
 	 * header.
 	 */
+	QB_VERIF_POINT(QB_VP_RB_RC_SETRP, rb);
 	rb->shared_hdr->read_pt = new_read_pt;
 
 	if (rb->notifier.reclaim_fn) {
@@ -628,9 +649,12 @@ qb_rb_chunk_peek(struct qb_ringbuffer_s * rb, void **data_out, int32_t timeout)
 		}
 		return res;
 	}
+	QB_VERIF_POINT(QB_VP_RB_PK_RP, rb);
 	read_pt = rb->shared_hdr->read_pt;
+	QB_VERIF_POINT(QB_VP_RB_PK_MG, rb);
 	chunk_magic = QB_RB_CHUNK_MAGIC_GET(rb, read_pt);
 	if (chunk_magic != QB_RB_CHUNK_MAGIC) {
+		QB_VERIF_POINT(QB_VP_RB_PK_BAD, rb);
 		if (rb->notifier.post_fn) {
 			(void)rb->notifier.post_fn(rb->notifier.instance, res);
 		}
@@ -640,6 +664,7 @@ qb_rb_chunk_peek(struct qb_ringbuffer_s * rb, void **data_out, int32_t timeout)
 		return -EINVAL;
 #endif
 	}
+	QB_VERIF_POINT(QB_VP_RB_PK_SZ, rb);
 	chunk_size = QB_RB_CHUNK_SIZE_GET(rb, read_pt);
 	*data_out = QB_RB_CHUNK_DATA_GET(rb, read_pt);
 	return chunk_size;
@@ -668,13 +693,16 @@ qb_rb_chunk_read(struct qb_ringbuffer_s * rb, void *data_out, size_t len,
 		return res;
 	}
 
+	QB_VERIF_POINT(QB_VP_RB_RD_RP, rb);
 	read_pt = rb->shared_hdr->read_pt;
+	QB_VERIF_POINT(QB_VP_RB_RD_MG, rb);
 	chunk_magic = QB_RB_CHUNK_MAGIC_GET(rb, read_pt);
 
 	if (chunk_magic != QB_RB_CHUNK_MAGIC) {
 		if (rb->notifier.timedwait_fn == NULL) {
 			return -ETIMEDOUT;
 		} else {
+			QB_VERIF_POINT(QB_VP_RB_RD_BAD, rb);
 			(void)rb->notifier.post_fn(rb->notifier.instance, res);
 #ifdef EBADMSG
 			return -EBADMSG;
@@ -684,17 +712,20 @@ qb_rb_chunk_read(struct qb_ringbuffer_s * rb, void *data_out, size_t len,
 		}
 	}
 
+	QB_VERIF_POINT(QB_VP_RB_RD_SZ, rb);
 	chunk_size = QB_RB_CHUNK_SIZE_GET(rb, read_pt);
 	if (len < chunk_size) {
 		qb_util_log(LOG_ERR,
 			    "trying to recv chunk of size %d but %d available",
 			    len, chunk_size);
+		QB_VERIF_POINT(QB_VP_RB_RD_SHORT, rb);
 		if (rb->notifier.post_fn) {
 			(void)rb->notifier.post_fn(rb->notifier.instance, chunk_size);
 		}
 		return -ENOBUFS;
 	}
 
+	QB_VERIF_POINT(QB_VP_RB_RD_CPY, rb);
 	memcpy(data_out,
 	       QB_RB_CHUNK_DATA_GET(rb, read_pt),
 	       chunk_size);
